@@ -117,6 +117,42 @@ def main(jobs: int = 16, only: Optional[str] = None, verbose: bool = False, with
     return 0 if bad == 0 else 1
 
 
+def _run_patch(args) -> Dict[str, Any]:
+    """One stored patch (seeded defect or behaviour-preserving refactoring) against one property's check, on a scratch copy."""
+    patch, prop = args
+    from ..__main__ import run_check
+    tmp = tempfile.mkdtemp(prefix="sfa-corpus-")
+    try:
+        shutil.copytree(os.path.join(REPO, "simfile"), os.path.join(tmp, "simfile"), ignore=shutil.ignore_patterns("__pycache__"))
+        r = subprocess.run(["git", "apply", "--unsafe-paths", "--directory", tmp, patch], capture_output=True, text=True, cwd="/")
+        if r.returncode != 0:
+            return {"id": os.path.basename(os.path.dirname(patch)), "exit": None}
+        code, ctx, violations, known, error = run_check(prop, "quick", repo=tmp, quiet=True, write=False)
+        return {"id": os.path.basename(os.path.dirname(patch)), "exit": code}
+    except Exception as e:  # never propagate
+        return {"id": os.path.basename(os.path.dirname(patch)), "exit": None, "error": f"{type(e).__name__}: {e}"}
+    finally:
+        shutil.rmtree(tmp, ignore_errors=True)
+
+
+def corpus_for_property(prop: str) -> Dict[str, Any]:
+    """The stored corpus (/verif/seeded, /verif/refactors) against this property's check: its own seeded defects must make it exit 1,
+    every stored behaviour-preserving refactoring must leave it silent. Patches that no longer apply to the current tree are counted as stale."""
+    import glob
+    root = os.path.dirname(os.path.dirname(HERE))
+    seeds = sorted(glob.glob(os.path.join(root, "seeded", f"{prop}-*", "patch.diff")))
+    refs = sorted(glob.glob(os.path.join(root, "refactors", "*", "patch.diff")))
+    with ProcessPoolExecutor(max_workers=16) as ex:
+        rs = list(ex.map(_run_patch, [(x, prop) for x in seeds]))
+        rr = list(ex.map(_run_patch, [(x, prop) for x in refs]))
+    return {
+        "seeded_defects": len(rs), "seeded_detected": sum(1 for r in rs if r["exit"] == 1),
+        "seeded_not_detected": [r["id"] + (":exit2" if r["exit"] == 2 else ":stale" if r["exit"] is None else ":silent") for r in rs if r["exit"] != 1],
+        "refactorings": len(rr), "refactorings_silent": sum(1 for r in rr if r["exit"] == 0),
+        "refactorings_not_silent": [r["id"] + (":exit2" if r["exit"] == 2 else ":stale" if r["exit"] is None else ":FALSE-ALARM") for r in rr if r["exit"] != 0],
+    }
+
+
 def record_for_property(prop: str) -> None:
     """Thorough tier: run this property's variants and add the outcome to the evidence file (never changes the verdict)."""
     from .variants import VARIANTS
@@ -136,9 +172,14 @@ def record_for_property(prop: str) -> None:
         "preserving_total": sum(1 for r in results if r["kind"] == "preserve"),
         "not_ok": [{"id": r["id"], "status": r["status"]} for r in results if r["status"] != "ok"],
     }
+    try:
+        ev["coverage"]["stored_corpus"] = corpus_for_property(prop)
+    except Exception as ex:
+        ev["coverage"]["stored_corpus"] = {"skipped": f"{type(ex).__name__}: {ex}"}
     with open(ev_path, "w") as f:
         json.dump(ev, f, indent=1, default=str)
     print(f"self-test for {prop}: {ev['coverage']['checker_selftest']}")
+    print(f"stored corpus for {prop}: {ev['coverage']['stored_corpus']}")
 
 
 if __name__ == "__main__":
